@@ -2,7 +2,7 @@
 
 CFG = dict(
     tests=["TestC14"],
-    n_quick=600, n_thorough=4000, shards_thorough=4,
+    n_quick=2500, n_thorough=8000, shards_thorough=4,
     timeout_quick=600, timeout_thorough=3000,
     rule="one case = one synctest bubble around the REAL util.NewWorkerGroup / util.RunJobs (or the v3 / v2 runner built on it): "
          "workers 1..64, 1..5 concurrent callers with 0..1000 jobs each, job functions instantaneous or taking virtual time; "
